@@ -20,6 +20,9 @@ var undefined reflect.Value
 var typeInterfaceSlice = reflect.SliceOf(jtypes.TypeInterface)
 
 func eval(node jparse.Node, input reflect.Value, env *environment) (reflect.Value, error) {
+	if err := simStep(node); err != nil {
+		return undefined, err
+	}
 	var err error
 	var v reflect.Value
 
@@ -883,16 +886,19 @@ func evalFunctionCall(node *jparse.FunctionCallNode, data reflect.Value, env *en
 		return undefined, newEvalError(ErrNonCallable, node.Func, nil)
 	}
 
+	simYield("call.setname", fn)
 	if setter, ok := fn.(nameSetter); ok {
 		if sym, ok := node.Func.(*jparse.VariableNode); ok {
 			setter.SetName(sym.Name)
 		}
 	}
 
+	simYield("call.setctx", fn)
 	if setter, ok := fn.(contextSetter); ok {
 		setter.SetContext(data)
 	}
 
+	simYield("call.args", fn)
 	argv := make([]reflect.Value, len(node.Args))
 	for i, arg := range node.Args {
 
@@ -904,6 +910,7 @@ func evalFunctionCall(node *jparse.FunctionCallNode, data reflect.Value, env *en
 		argv[i] = v
 	}
 
+	simYield("call.invoke", fn)
 	return fn.Call(argv)
 }
 
@@ -913,7 +920,9 @@ func evalFunctionApplication(node *jparse.FunctionApplicationNode, data reflect.
 	// evaluate it.
 	if f, ok := node.RHS.(*jparse.FunctionCallNode); ok {
 
+		simYield("apply.rewrite", f)
 		f.Args = append([]jparse.Node{node.LHS}, f.Args...)
+		simYield("apply.rewritten", f)
 		return evalFunctionCall(f, data, env)
 	}
 
